@@ -72,6 +72,69 @@ def toks(expr, vars_, labels):
     raise Unsupported(f"node {type(expr).__name__}: {expr}")
 
 
+def maple_back(text):
+    """an independent reader of the Maple rendering of an equation (`F[3, x, k[0]]`, `k[0]`, `(a * b)`, `**`): back to a sympy
+    equation. Raises Unsupported when the text is not of that shape."""
+    import re
+
+    if "NOTIMPLEMENTED" in text or "Av(" in text:
+        raise Unsupported("verification placeholder")
+    out, stack, i = [], [], 0
+    while i < len(text):
+        m = re.match(r"F\[(\d+), ", text[i:])
+        if m:
+            out.append(f"F_{m.group(1)}(")
+            stack.append(")")
+            i += len(m.group(0))
+            continue
+        m = re.match(r"([A-Za-z]+)\[(\d+)\]", text[i:])
+        if m:
+            out.append(f"{m.group(1)}_{m.group(2)}")
+            i += len(m.group(0))
+            continue
+        ch = text[i]
+        if ch == "[":
+            raise Unsupported("unexpected bracket in " + text)
+        if ch == "]":
+            if not stack:
+                raise Unsupported("unbalanced bracket in " + text)
+            out.append(stack.pop())
+        else:
+            out.append(ch)
+        i += 1
+    if stack:
+        raise Unsupported("unbalanced bracket in " + text)
+    sides = "".join(out).split(" = ")
+    if len(sides) != 2:
+        raise Unsupported("not one equation: " + text)
+    try:
+        return sympy.Eq(sympy.sympify(sides[0]), sympy.sympify(sides[1]), evaluate=False)
+    except Exception as exc:  # noqa: BLE001
+        raise Unsupported(f"unreadable: {exc}") from exc
+
+
+def maple_problem(eq):
+    """the Maple rendering of an emitted equation must state the same equation (it is what a user pastes into Maple): read it
+    back independently and compare both sides; returns (kind, detail) or None"""
+    from comb_spec_searcher.utils import sympy_expr_to_maple
+
+    try:
+        text = sympy_expr_to_maple(eq)
+    except Exception as exc:  # noqa: BLE001
+        return ("maple-rendering-raises", specrun.exc_info(exc))
+    try:
+        back = maple_back(text)
+    except Unsupported as exc:
+        return None if "placeholder" in str(exc) else ("maple-unreadable", f"{text}: {exc}")
+    try:
+        same = sympy.expand(back.lhs - eq.lhs) == 0 and sympy.expand(back.rhs - eq.rhs) == 0
+    except Exception as exc:  # noqa: BLE001
+        return ("maple-unreadable", f"{text}: {exc}")
+    if not same:
+        return ("maple-equation-differs", f"emitted for Maple: {text}   verified equation: {eq}")
+    return None
+
+
 def eq_lines(eq, classes, N, tabcap):
     """driver lines for one equation; classes: list of comb classes, function F_i <-> classes[i]"""
     num, den = sympy.fraction(sympy.together(eq.rhs))
@@ -135,6 +198,9 @@ def form_eval(o, r, N):
                     o["skip"] = "equation collapsed to a boolean"
                 else:
                     o["eq"] = str(eq)
+                    mp = maple_problem(eq)
+                    if mp is not None:
+                        o["maple"] = [mp]
                     o["lines"] = eq_lines(eq, classes, N, N + 5)
             except NotImplementedError:
                 o["skip"] = "not implemented"
@@ -188,6 +254,10 @@ def _spec_worker(args):
         nlab = max(bylabel) + 1
         classes = [bylabel.get(i) for i in range(nlab)]
         for eq in spec.get_equations():
+            mp = maple_problem(eq)
+            if mp is not None:
+                out.setdefault("maple", []).append(mp)
+            out["maple_n"] = out.get("maple_n", 0) + 1
             names = {f.func.__name__ for f in eq.atoms(sympy.core.function.AppliedUndef)}
             if not all(nm.startswith("F_") and nm[2:].isdigit() for nm in names):
                 out["eqs"].append((str(eq), None))
@@ -252,6 +322,12 @@ def run(tier, seed, factor=1):
             res.dist["skipped: " + o["skip"][:50]] += 1
         else:
             res.dist["equation of " + o["constructor"]] += 1
+            for kind, detail in o.get("maple", [])[:1]:
+                if kind == "maple-equation-differs":
+                    res.fail("maple-equation-differs-from-the-emitted-equation", {"rule": o["rule"], "form": o["form"], "desc": o.get("desc")}, detail)
+                else:
+                    res.diff("the Maple rendering of an equation, read back independently", {"rule": o["rule"], "form": o["form"]}, detail[:300],
+                             "a readable rendering of the same equation")
             lines += o["lines"]
             metas.append((len(o["lines"]), {"rule": o["rule"], "form": o["form"], "equation": o["eq"], "desc": o.get("desc")}, "eq"))
     for o in souts:
@@ -259,6 +335,12 @@ def run(tier, seed, factor=1):
         res.dist["spec:" + o["status"]] += 1
         for sig, detail in o.get("problems", []):
             res.fail(sig, o["cfg"], detail)
+        res.dist["spec equations read back from their Maple rendering"] += o.get("maple_n", 0)
+        for kind, detail in o.get("maple", [])[:1]:
+            if kind == "maple-equation-differs":
+                res.fail("maple-equation-differs-from-the-emitted-equation", o["cfg"], detail)
+            else:
+                res.diff("the Maple rendering of an equation, read back independently", o["cfg"], detail[:300], "a readable rendering of the same equation")
         for eqs, ls in o["eqs"]:
             if ls is None:
                 res.dist["spec equation unsupported"] += 1
